@@ -273,8 +273,8 @@ class TemplateCompiler(Coder):
 
     def process_delayed_replication_descriptor(self, state, bit_operator, descriptor):
         # TODO: delayed repetition descriptor 031011, 031012
-        if descriptor.id in (31011, 31012):
-            raise NotImplementedError('delayed repetition descriptor')
+        if descriptor.factor.id in (31011, 31012):
+            raise PyBufrKitError('Delayed repetition ({} {}) is not implemented'.format(descriptor, descriptor.factor))
 
         self.process_element_descriptor(state, bit_operator, descriptor.factor)
         with state.new_loop(CoderMethodCall('get_value_for_delayed_replication_factor')):
